@@ -277,6 +277,29 @@ def run(ctx):
     ctx.check({"netloc", "path"} <= parts_read or (not parts_read and uses_helper), "R17.4", "SplitWriter.__init__:stdout-detection",
               f"is_stdout is computed from {sorted(parts_read) or norm(sexpr)[:60]} only: a target like jsonfile://out (name in the netloc) or out.records (name in the path) is mistaken for stdout "
               "and written unsplit", sdefs[0], "netloc and path of the target URL are both consulted", key="R17.4:SplitWriter:stdout-detection-ignores-url-part")
+    # the file a record goes to is the one the template names for THAT record: `ts` is the record's own _generated value (the
+    # current time only when it has none), handed to the template as it is, together with the record itself
+    ptw = ctx.anchor_func("flow.record.stream.PathTemplateWriter.write")
+    pcfg = CFG(ptw)
+    rec_p = func_params(ptw)[1]
+    fmts = [c for c in calls_in(ptw) if isinstance(c.func, ast.Attribute) and c.func.attr == "format" and "path_template" in norm(c.func.value)]
+    ctx.floor("R17.4", "template instantiations in PathTemplateWriter.write", len(fmts), 1)
+    for fc in fmts:
+        kws = {k.arg: k.value for k in fc.keywords if k.arg}
+        tsv = kws.get("ts")
+        srcs = []
+        if isinstance(tsv, ast.Name):
+            for d in pcfg.reaching_defs(tsv.id).get(pcfg.node_of(fc).id, set()):
+                da = pcfg.nodes[d].ast
+                srcs.append(da.value if isinstance(da, ast.Assign) and len(da.targets) == 1 and isinstance(da.targets[0], ast.Name) else None)
+        elif tsv is not None:
+            srcs = [tsv]
+        own_ts = bool(srcs) and all(v is not None and (norm(v) == f"{rec_p}._generated" or (isinstance(v, ast.BoolOp) and isinstance(v.op, ast.Or) and norm(v.values[0]) == f"{rec_p}._generated"
+                                                        and all("now" in norm(x) or "utcnow" in norm(x) for x in v.values[1:]))) for v in srcs)
+        ctx.check(own_ts and norm(kws.get("record", ast.Constant(None))) == rec_p, "R17.4", "PathTemplateWriter.write:template-arguments",
+                  f"the template is instantiated with ts defined by {[norm(v)[:60] if v is not None else '?' for v in srcs]}: a converted or otherwise derived time (and `record` = "
+                  f"{norm(kws.get('record', ast.Constant(None)))}) can name another file than the template applied to the record's own _generated value does", fc,
+                  f"ts = {rec_p}._generated or <now>, record = {rec_p}", key="R17.4:PathTemplateWriter.write:ts-not-the-records-own")
     # rotation
     rsp = ctx.anchor_func("flow.record.stream.PathTemplateWriter.record_stream_for_path")
     rcfg = CFG(rsp)
